@@ -124,6 +124,33 @@ class FFunc:
         return self._fn(vals)
 
 
+class FName:
+    """instrumented column name: a name object whose comparison, hashing and str() are
+    call-backs the library makes into caller code (each can fail)"""
+
+    def __init__(self, s, ticker):
+        self._s = s
+        self._t = ticker
+
+    def __eq__(self, other):
+        self._t.tick("eq")
+        return self._s == (other._s if isinstance(other, FName) else other)
+
+    def __ne__(self, other):
+        return not self.__eq__(other)
+
+    def __hash__(self):
+        self._t.tick("hash")
+        return hash(self._s)
+
+    def __str__(self):
+        self._t.tick("str")
+        return self._s
+
+    def __repr__(self):          # used by the harness only; not a fault point
+        return "FName(%r)" % (self._s,)
+
+
 def make_seq(form, values, ticker):
     if form == "fseq":
         return FSeq(values, ticker)
